@@ -43,6 +43,7 @@ func runC09(c *engine.Ctx, tier string) {
 			"@CFG.Status.Committed.Index != @PREV && !(@CFG.Status.Applied.Index == @PREV && @CFG.Status.Committed.Index >= @OWN)",
 		Result0: requeuePrev, Returns: "err==nil",
 		Why: "an abort whose turn has not come (no cursor is at its predecessor) pokes the predecessor like the other waits do (F52)"})
+	abortWaitJustified(c)
 	// (2) terminal states wake the successor
 	for _, x := range []struct{ id, when string }{
 		{"C09.2a", "@P.Status.Phases.Apply == nil && @P.Status.Phases.Abort == nil && @P.Status.Phases.Commit != nil && @P.Status.Phases.Commit.State == config/v2.ProposalCommitPhase_COMMITTED"},
@@ -683,6 +684,76 @@ func infraWatcherMaps(c *engine.Ctx) {
 			if !matched[g] {
 				o.Fail(&engine.Violation{Key: w.pkg + "." + w.recv + "|sends " + g, Pos: c.P.Pos(p.Events[gotIdx[g]].Pos), Func: w.recv + ".Start",
 					Msg: "the watcher maps an event to an id that is not in the frozen table: " + g})
+			}
+		}
+	}
+}
+
+// abortWaitJustified: C09.11 (seed C09-r41) — the converse of C09.1c. An ABORTING pass that writes nothing
+// (it waits, whatever it re-queues) is taken only in states in which the abort really cannot move: its path
+// condition is inconsistent with "the committed cursor is at the predecessor" and with "the applied cursor is at
+// the predecessor and the committed cursor has passed this proposal" (by this proposal or by a later one).
+func abortWaitJustified(c *engine.Ctx) {
+	o := c.Custom("C09.11", "K-enum(wait predicate)", "an ABORTING pass of the proposal controller that performs no store write is infeasible for Committed.Index == PrevIndex and for Applied.Index == PrevIndex ∧ Committed.Index ≥ TransactionIndex",
+		"re-examining changes nothing only if nothing can be done: a branch that covers '== own index' but not '> own index' strands an abort behind a later commit, and the two proposals re-queue each other for ever")
+	defer o.Done(1)
+	paths, err := c.A.Paths(pkgProposalCtl)
+	if err != nil {
+		o.Undecided(pkgProposalCtl, err.Error())
+		return
+	}
+	class, err1 := engine.ParseClause("err(@P) == nil && @P.Status.Phases.Apply == nil && @P.Status.Phases.Abort != nil && @P.Status.Phases.Abort.State == config/v2.ProposalAbortPhase_ABORTING && err(@CFG) == nil", c.Al, c.P)
+	var states []engine.Formula
+	var names []string
+	for _, st := range []string{
+		"@CFG.Status.Committed.Index == @PREV",
+		"@CFG.Status.Applied.Index == @PREV && @CFG.Status.Committed.Index == @OWN && @CFG.Status.Applied.Index < @OWN",
+		"@CFG.Status.Applied.Index == @PREV && @CFG.Status.Committed.Index > @OWN && @CFG.Status.Applied.Index < @OWN",
+	} {
+		f, e := engine.ParseClause(st, c.Al, c.P)
+		if e != nil {
+			err1 = e
+		}
+		states = append(states, f)
+		names = append(names, st)
+	}
+	if err1 != nil {
+		o.Undecided("clauses", err1.Error())
+		return
+	}
+	reported := map[string]bool{}
+	for _, p := range paths {
+		if p.Lit != nil || !strings.HasSuffix(p.Root.Name(), "Reconciler.Reconcile") {
+			continue
+		}
+		last := len(p.Events) - 1
+		if p.Events[last].Kind != engine.EvReturn {
+			continue
+		}
+		conds := engine.CondsBefore(p, last)
+		if !engine.Entails(conds, class, c.P.Domain) {
+			continue
+		}
+		wrote := false
+		for i := range p.Events {
+			if e := &p.Events[i]; e.Kind == engine.EvCall && (strings.HasSuffix(e.CalleeName, "Store.UpdateStatus") || strings.HasSuffix(e.CalleeName, "Store.Update")) {
+				wrote = true
+			}
+		}
+		if wrote {
+			continue
+		}
+		o.Site(c.P.Pos(p.Events[last].Pos) + " waiting ABORTING pass")
+		for k, st := range states {
+			o.Eval(1)
+			d, ok := engine.DNF(st, false)
+			if !ok || len(d) != 1 {
+				continue
+			}
+			if !engine.Unsat(append(append([]engine.Lit{}, conds...), d[0]...), c.P.Domain) && !reported[names[k]] {
+				reported[names[k]] = true
+				o.Fail(&engine.Violation{Key: "Reconciler.reconcileAbort|wait taken in a state that can move: " + c.Al.Render(names[k]), Pos: c.P.Pos(p.Events[last].Pos), Func: engine.FuncChain(p, last),
+					Msg: "an ABORTING pass returns without any store write on a path that is feasible for " + c.Al.Render(names[k]) + ": the abort could move a cursor there but waits, and nothing else will move it", Found: c.RenderConds(conds)})
 			}
 		}
 	}
